@@ -81,6 +81,10 @@ func (h accountsResourceHandler) ResolveFilter(opts common.ResourceQuery[any], o
 			if !h.store.ledger.HasFeature(features.FeatureMovesHistory, "ON") {
 				return "", nil, NewErrMissingFeature(features.FeatureMovesHistory)
 			}
+			// the balance at a point in time is read from post_commit_effective_volumes
+			if !h.store.ledger.HasFeature(features.FeatureMovesHistoryPostCommitEffectiveVolumes, "SYNC") {
+				return "", nil, NewErrMissingFeature(features.FeatureMovesHistoryPostCommitEffectiveVolumes)
+			}
 			selectBalance = selectBalance.
 				ModelTableExpr(h.store.GetPrefixedRelationName("moves")).
 				DistinctOn("asset").
